@@ -210,3 +210,5 @@ func itoa(v int64) string {
 	}
 	return sprint(v)
 }
+
+func init() { registerGen("Duration", genDuration) }
